@@ -229,7 +229,7 @@ func twccMutate(r *core.Rand, b []byte) []byte {
 
 func runC13(c *core.Ctx) {
 	// (1) chunking invariance
-	c.Section("invariance", c.N(60000, 3000000), func(cs *core.Case) {
+	c.Section("invariance", c.N(60000, 9000000), func(cs *core.Case) {
 		r := cs.R
 		m := gen.TWCCModelGen(r, gen.Opts{})
 		want := modelProjection(m)
@@ -285,7 +285,7 @@ func runC13(c *core.Ctx) {
 		}
 	})
 	// (2) arbitrary accepted octets: mutants
-	c.Section("mutants", c.N(500000, 30000000), func(cs *core.Case) {
+	c.Section("mutants", c.N(500000, 90000000), func(cs *core.Case) {
 		r := cs.R
 		m := gen.TWCCModelGen(r, gen.Opts{NoBig: !r.Chance(1, 50)})
 		v := m.Value(m.Chunks(r, gen.ChunkOpts{OvershootRun: true}))
